@@ -136,8 +136,7 @@ async fn manual_upgrade(tcp: &mut Io, good: bool) -> bool {
 }
 
 async fn free_port() -> u16 {
-    let l = TcpListener::bind("127.0.0.1:0").await.unwrap();
-    l.local_addr().unwrap().port()
+    alloc_port()
 }
 
 struct Local {
@@ -214,8 +213,9 @@ fn open_local(ports: [u16; 3], id: u64) -> Local {
 async fn scenario(c: Vec<u64>) -> Vec<u64> {
     let (max_ms, max_count, hs_ms, ch_ms) = (c[0], c[1] as u32, c[2], c[3]);
     let script: Vec<(u64, u64, u64)> = c[4..].chunks(3).filter(|x| x.len() == 3).map(|x| (x[0], x[1], x[2])).collect();
-    let mut listener = Some(TcpListener::bind("127.0.0.1:0").await.unwrap());
-    let sport = listener.as_ref().unwrap().local_addr().unwrap().port();
+    // (the server's port is closed and bound again during refused windows: not an ephemeral port either)
+    let sport = alloc_port();
+    let mut listener = Some(TcpListener::bind(("127.0.0.1", sport)).await.unwrap());
     let lport = [free_port().await, free_port().await, free_port().await];
     let tls = script.iter().any(|e| matches!(e.0, 10 | 13));
     let ka = script.iter().any(|e| e.0 == 11);
